@@ -1,10 +1,16 @@
 package main
 
 import (
+	"bufio"
 	"fmt"
+	"io"
 	"math"
 	"math/rand"
+	"os"
+	"os/exec"
 	"sort"
+	"strings"
+	"time"
 
 	"github.com/paulmach/orb"
 	"github.com/paulmach/orb/clip"
@@ -13,7 +19,8 @@ import (
 
 // C16 — smart clipping closes cut rings around the box with the asked winding.
 //
-// Case lines (o = 1 for orb.CCW, -1 for orb.CW; qs = sample points inside the box):
+// Case lines (o = 1 for orb.CCW, -1 for orb.CW, anything else is outside the quantifier and only
+// compared with the model; qs = sample points inside the box):
 //   ring  <o> <box> <pts> <qs>               smartclip.Ring on a (usually closed) ring
 //   open  <o> <box> <path> <full> <qs>       smartclip.Ring on an open sub-path of the closed ring <full>
 //                                            (<full> = <path> ++ omitted vertices ++ [path[0]])
@@ -21,10 +28,182 @@ import (
 //                                            code A and re-entering at code B (the nexts/pointFor tables)
 //   poly  <o> <box> PG … <qs>                smartclip.Polygon
 //   mpoly <o> <box> MPG … <qs>               smartclip.MultiPolygon
-//   geom  <o> <box> <gval>                   smartclip.Geometry
-// Outcome: nil | MPG … | <gval> | panic
+//   geom  <o> <box> <gval>                   smartclip.Geometry (<gval> may hold nil members, gsN)
+//   aring / apoly / ampoly <o> <box> <pts> | PG … | MPG …
+//                                            the same three entry points on inputs whose rings are
+//                                            sub-slices of ONE caller buffer (see c16Alias)
+// Outcome: nil | MPG … | <gval> | panic | hang | crash; the a* ops append
+//   `alias <wS> <sameS> <wB> <sameB>`.
+//
+// WATCHDOG.  Every call of the real code runs in a persistent child process of this binary (the
+// worker, environment variable ORBVERIF_C16_WORKER): the parent writes `<op> <tokens>` to its stdin
+// and waits for one outcome line.  No answer after c16CPULimit of the worker's CPU time => the worker is
+// killed and a fresh one repeats the case once with a doubled limit; no answer again => outcome `hang`.  A worker that dies
+// (fatal error, not a recoverable panic) twice on the same case => outcome `crash`.  Nothing leaks:
+// the spinning process is gone.  (Before /repo 2c23ded clip.line's inner `for {}` did not terminate in
+// float arithmetic when an intersection landed one ulp beyond the neighbouring box line — a vertex
+// exactly on a corner of a general-position box; the corner/side-snapped family below found it.
+// `hang` is a plain property failure now.)
 
-func init() { register(&Prop{ID: "C16", Run: runC16, Gen: genC16}) }
+const c16WorkerEnv = "ORBVERIF_C16_WORKER"
+
+// A case is a hang when the WORKER HAS BURNT c16CPULimit of CPU time on it (/proc/<pid>/stat) — the
+// non-terminating loop spins — not when wall time has passed: with 16 shards, 16 workers and 16 Lean
+// drivers on a machine that other jobs load to 60, a worker can go unscheduled for many seconds, and
+// a wall-clock limit of 3 s + 6 s reported hangs that replayed clean.  A worker that neither answers
+// nor computes (blocked) is given c16WallCap.  Without /proc the limit is wall time, ten times longer.
+const c16CPULimit = 2 * time.Second
+
+const c16WallCap = 5 * time.Minute
+
+// CPU time (user + system) consumed so far by process pid; ok = false when /proc is not available
+func c16ProcCPU(pid int) (time.Duration, bool) {
+	data, err := os.ReadFile(fmt.Sprintf("/proc/%d/stat", pid))
+	if err != nil {
+		return 0, false
+	}
+	str := string(data)
+	i := strings.LastIndexByte(str, ')')
+	if i < 0 {
+		return 0, false
+	}
+	f := strings.Fields(str[i+1:])
+	if len(f) < 13 {
+		return 0, false
+	}
+	var ut, st int64
+	if _, err := fmt.Sscan(f[11], &ut); err != nil {
+		return 0, false
+	}
+	if _, err := fmt.Sscan(f[12], &st); err != nil {
+		return 0, false
+	}
+	return time.Duration(ut+st) * (time.Second / 100), true // USER_HZ = 100
+}
+
+func init() {
+	if os.Getenv(c16WorkerEnv) != "" {
+		c16WorkerMain()
+		os.Exit(0)
+	}
+	register(&Prop{ID: "C16", Run: runC16, Gen: genC16})
+}
+
+func c16WorkerMain() {
+	in := bufio.NewReaderSize(os.Stdin, 1<<20)
+	out := bufio.NewWriterSize(os.Stdout, 1<<20)
+	for {
+		line, err := in.ReadString('\n')
+		if f := strings.Fields(line); len(f) > 0 {
+			out.WriteString(c16Call(f[0], f[1:]))
+			out.WriteByte('\n')
+			out.Flush()
+		}
+		if err != nil {
+			return
+		}
+	}
+}
+
+type c16Worker struct {
+	cmd   *exec.Cmd
+	stdin io.WriteCloser
+	w     *bufio.Writer
+	out   chan string // one line per case; closed when the worker's stdout ends
+}
+
+var c16W *c16Worker
+var c16NoWorker bool // the worker could not be started: fall back to in-process calls (no watchdog)
+
+func c16Start() *c16Worker {
+	exe, err := os.Executable()
+	if err != nil {
+		return nil
+	}
+	cmd := exec.Command(exe)
+	cmd.Env = append(os.Environ(), c16WorkerEnv+"=1")
+	cmd.Stderr = io.Discard
+	stdin, err1 := cmd.StdinPipe()
+	stdout, err2 := cmd.StdoutPipe()
+	if err1 != nil || err2 != nil || cmd.Start() != nil {
+		return nil
+	}
+	w := &c16Worker{cmd: cmd, stdin: stdin, w: bufio.NewWriterSize(stdin, 1<<20), out: make(chan string, 1)}
+	go func() {
+		rd := bufio.NewReaderSize(stdout, 1<<20)
+		for {
+			line, err := rd.ReadString('\n')
+			if strings.HasSuffix(line, "\n") {
+				w.out <- strings.TrimRight(line, "\n")
+			}
+			if err != nil {
+				close(w.out)
+				return
+			}
+		}
+	}()
+	return w
+}
+
+func (w *c16Worker) kill() {
+	w.stdin.Close()
+	w.cmd.Process.Kill()
+	w.cmd.Wait()
+}
+
+func runC16(op string, in []string) string {
+	if c16NoWorker {
+		return c16Call(op, in)
+	}
+	res := "hang"
+	limit := c16CPULimit
+	for attempt := 0; attempt < 2; attempt++ {
+		if c16W == nil {
+			if c16W = c16Start(); c16W == nil {
+				c16NoWorker = true
+				return c16Call(op, in)
+			}
+		}
+		w := c16W
+		w.w.WriteString(op)
+		for _, t := range in {
+			w.w.WriteByte(' ')
+			w.w.WriteString(t)
+		}
+		w.w.WriteByte('\n')
+		w.w.Flush()
+		pid := w.cmd.Process.Pid
+		cpu0, haveCPU := c16ProcCPU(pid)
+		t0 := time.Now()
+		tick := time.NewTicker(200 * time.Millisecond)
+		for waiting := true; waiting; {
+			select {
+			case s, ok := <-w.out:
+				if ok {
+					tick.Stop()
+					return s
+				}
+				res, waiting = "crash", false
+			case <-tick.C:
+				if haveCPU {
+					if cpu, ok := c16ProcCPU(pid); ok && cpu-cpu0 >= limit {
+						res, waiting = "hang", false
+					}
+					if time.Since(t0) > c16WallCap {
+						res, waiting = "hang", false
+					}
+				} else if time.Since(t0) > 10*limit {
+					res, waiting = "hang", false
+				}
+			}
+		}
+		tick.Stop()
+		w.kill()
+		c16W = nil
+		limit *= 2
+	}
+	return res
+}
 
 func mpOut(mp orb.MultiPolygon) string {
 	if mp == nil {
@@ -33,7 +212,8 @@ func mpOut(mp orb.MultiPolygon) string {
 	return gs(mp)
 }
 
-func runC16(op string, in []string) string {
+// c16Call runs the real code (in the worker process).
+func c16Call(op string, in []string) string {
 	return guard(func() string {
 		r := &tokReader{t: in}
 		o := orb.Orientation(r.int())
@@ -55,9 +235,88 @@ func runC16(op string, in []string) string {
 				return "nil"
 			}
 			return gs(out)
+		case "aring":
+			return c16Alias("ring", box, o, orb.MultiPolygon{{orb.Ring(r.pts())}})
+		case "apoly":
+			return c16Alias("poly", box, o, orb.MultiPolygon{r.geom().(orb.Polygon)})
+		case "ampoly":
+			return c16Alias("mpoly", box, o, r.geom().(orb.MultiPolygon))
 		}
 		return "badop"
 	})
+}
+
+// c16Alias: the caller's rings are sub-slices of ONE buffer, as they are after decoding a geometry
+// into a single coordinate array.  The entry point is run three times:
+//   * on a deep copy with cap == len (the reference result, reported first);
+//   * layout S: every ring is followed by one spare sentinel slot (and its capacity runs on to the end
+//     of the buffer);
+//   * layout B: the rings lie back to back, so that the slot after a ring is the first vertex of the
+//     next ring (two sentinel slots after the last).
+// For both layouts the whole buffer is compared before / after the call (w = number of slots whose
+// bits changed) and the result is compared with the reference (same = 1 | 0, p = panic).
+func c16Alias(kind string, box orb.Bound, o orb.Orientation, mp orb.MultiPolygon) string {
+	call := func(m orb.MultiPolygon) orb.MultiPolygon {
+		switch kind {
+		case "ring":
+			return smartclip.Ring(box, m[0][0], o)
+		case "poly":
+			return smartclip.Polygon(box, m[0], o)
+		}
+		return smartclip.MultiPolygon(box, m, o)
+	}
+	exact := func() orb.MultiPolygon {
+		m := make(orb.MultiPolygon, len(mp))
+		for i, pg := range mp {
+			m[i] = make(orb.Polygon, len(pg))
+			for j, rg := range pg {
+				m[i][j] = append(make(orb.Ring, 0, len(rg)), rg...)
+			}
+		}
+		return m
+	}
+	ref := mpOut(call(exact()))
+	res := ref + " alias"
+	for _, gap := range []int{1, 0} {
+		total := 2
+		for _, pg := range mp {
+			for _, rg := range pg {
+				total += len(rg) + gap
+			}
+		}
+		buf := make([]orb.Point, total)
+		for i := range buf {
+			buf[i] = orb.Point{box.Min[0] + 0.3125*(box.Max[0]-box.Min[0]) + float64(i)/1024, box.Min[1] + 0.4375*(box.Max[1]-box.Min[1])}
+		}
+		m := make(orb.MultiPolygon, len(mp))
+		at := 0
+		for i, pg := range mp {
+			m[i] = make(orb.Polygon, len(pg))
+			for j, rg := range pg {
+				copy(buf[at:], rg)
+				m[i][j] = orb.Ring(buf[at : at+len(rg)])
+				at += len(rg) + gap
+			}
+		}
+		before := append([]orb.Point(nil), buf...)
+		same := guard(func() string {
+			if mpOut(call(m)) == ref {
+				return "1"
+			}
+			return "0"
+		})
+		if same == "panic" {
+			same = "p"
+		}
+		w := 0
+		for i := range buf {
+			if math.Float64bits(buf[i][0]) != math.Float64bits(before[i][0]) || math.Float64bits(buf[i][1]) != math.Float64bits(before[i][1]) {
+				w++
+			}
+		}
+		res += fmt.Sprintf(" %d %s", w, same)
+	}
+	return res
 }
 
 // ---------------------------------------------------------------- geometry helpers (generator side only)
@@ -527,6 +786,41 @@ func genC16(c *Ctx) {
 			"geom 1 " + b.String() + " R " + spts([]orb.Point{{2, 2}, {2, 2}, {2, 2}, {2, 2}}),
 			"geom 1 " + b.String() + " R " + spts([]orb.Point{{0, 0}, {6, 6}}),   // through two corners
 			"geom 1 " + b.String() + " R " + spts([]orb.Point{{0, 2}, {2, 0}, {0, 0}, {0, 2}}), // cuts the corner point only
+			// orientations other than CW / CCW (outside the quantifier: model agreement only; `nexts[o]` is the zero array)
+			"ring 0 " + b.String() + " " + spts(c16Close([]orb.Point{{2, 2}, {7, 2}, {7, 3}, {2, 3}})) + " 0",
+			"ring 2 " + b.String() + " " + spts(c16Close([]orb.Point{{2, 2}, {7, 2}, {7, 3}, {2, 3}})) + " 0",
+			"ring -2 " + b.String() + " " + spts(c16Close([]orb.Point{{0, 2}, {7, 2}, {7, 3}, {0, 3}})) + " 0",
+			"ring 0 " + b.String() + " " + spts(c16Close([]orb.Point{{2, 2}, {3, 2}, {3, 3}})) + " 0",
+			"ring 2 " + b.String() + " " + spts(c16Close([]orb.Point{{7, 2}, {8, 2}, {8, 3}})) + " 0",
+			"poly 0 " + b.String() + " PG 1 " + spts(c16Close([]orb.Point{{2, 2}, {7, 2}, {7, 3}, {2, 3}})) + " 0",
+			"mpoly -2 " + b.String() + " MPG 1 1 " + spts(c16Close([]orb.Point{{2, 2}, {7, 2}, {7, 3}, {2, 3}})) + " 0",
+			"geom 2 " + b.String() + " R " + spts(c16Close([]orb.Point{{2, 2}, {7, 2}, {7, 3}, {2, 3}})),
+			"geom 0 " + b.String() + " C 2 P " + fb(2) + " " + fb(2) + " R " + spts(c16Close([]orb.Point{{2, 2}, {7, 2}, {7, 3}, {2, 3}})),
+			// nil members below the top level (gsN): nil ring in a polygon, nil polygon in a multi-polygon, typed nils in a collection
+			"geom 1 " + b.String() + " PG 2 " + spts(c16Close([]orb.Point{{2, 2}, {7, 2}, {7, 3}, {2, 3}})) + " n",
+			"geom 1 " + b.String() + " PG 2 n " + spts(c16Close([]orb.Point{{2, 2}, {7, 2}, {7, 3}, {2, 3}})),
+			"geom -1 " + b.String() + " MPG 3 n 1 " + spts(c16Close([]orb.Point{{2, 2}, {2, 3}, {7, 3}, {7, 2}})) + " 2 n n",
+			"geom 1 " + b.String() + " C 3 nR nPG C 2 nMPG R " + spts(c16Close([]orb.Point{{2, 2}, {7, 2}, {7, 3}, {2, 3}})),
+			"mpoly 1 " + b.String() + " MPG 3 0 1 " + spts(c16Close([]orb.Point{{2, 2}, {7, 2}, {7, 3}, {2, 3}})) + " 0 0",
+			"mpoly 1 " + b.String() + " MPG 3 0 1 " + spts(c16Close([]orb.Point{{2, 2}, {4, 2}, {4, 3}, {2, 3}})) + " 0 0",
+			// island in a lake (review D3): B with hole H, A inside H with hole Ha; the box [0,8]² cuts B only
+			"mpoly 1 " + c16Box{0, 0, 8, 8}.String() + " " + gs(c16Island(orb.Point{3, 3}, [4]float64{4.5, 2.5, 1.5, 0.5}, 1, false)) + " 0",
+			"mpoly -1 " + c16Box{0, 0, 8, 8}.String() + " " + gs(c16Island(orb.Point{3, 3}, [4]float64{4.5, 2.5, 1.5, 0.5}, -1, true)) + " 0",
+			"mpoly 1 " + c16Box{0, 0, 8, 8}.String() + " " + gs(c16Island(orb.Point{3, 3}, [4]float64{4.5, 2.5, 1.5, 0}, 1, false)) + " 0",
+			"geom 1 " + c16Box{0, 0, 8, 8}.String() + " " + gs(c16Island(orb.Point{3, 3}, [4]float64{4.5, 2.5, 1.5, 0.5}, 1, false)),
+			// the whole island configuration inside the box / the outermost ring swallowing the box
+			"mpoly 1 " + c16Box{-4, -4, 8, 8}.String() + " " + gs(c16Island(orb.Point{3, 3}, [4]float64{4.5, 2.5, 1.5, 0.5}, 1, false)) + " 0",
+			"mpoly 1 " + b.String() + " " + gs(c16Island(orb.Point{3, 3}, [4]float64{4, 1.5, 1, 0.5}, 1, false)) + " 0",
+			// the outer ring swallows the box, the hole is inside / cut / outside
+			"poly 1 " + b.String() + " " + gs(c16Island(orb.Point{3, 3}, [4]float64{4, 1, 0, 0}, 1, false)[0]) + " 0",
+			"poly 1 " + b.String() + " " + gs(c16Island(orb.Point{5, 3}, [4]float64{6, 1, 0, 0}, 1, false)[0]) + " 0",
+			"poly -1 " + b.String() + " " + gs(c16Island(orb.Point{7, 3}, [4]float64{8, 1, 0, 0}, -1, false)[0]) + " 0",
+			// caller buffers (review D2): open ring with its first vertex inside the box, closed ring, polygon with an open hole
+			"aring 1 " + b.String() + " " + spts([]orb.Point{{2, 2}, {7, 2}, {7, 4}}),
+			"aring 1 " + b.String() + " " + spts(c16Close([]orb.Point{{2, 2}, {7, 2}, {7, 4}})),
+			"aring 1 " + b.String() + " " + spts([]orb.Point{{0, 2}, {7, 2}, {7, 4}}),
+			"apoly 1 " + b.String() + " PG 2 " + spts([]orb.Point{{2, 2}, {7, 2}, {7, 4}}) + " " + spts(c16Close([]orb.Point{{3, 2.5}, {4, 3}, {4, 2.5}})),
+			"ampoly 1 " + b.String() + " MPG 2 1 " + spts([]orb.Point{{2, 2}, {7, 2}, {7, 4}}) + " 1 " + spts(c16Close([]orb.Point{{2, 4.5}, {3, 4.5}, {3, 4.75}})),
 		}
 		for i, l := range deg {
 			if c.Mine(i) {
@@ -543,7 +837,182 @@ func genC16(c *Ctx) {
 		b := c16GenBox(r, mode)
 		o := 1 - 2*r.Intn(2)
 		qs := spts(c16Samples(r, b, 16))
-		switch s := r.Intn(20); {
+		switch s := r.Intn(27); {
+		case s >= 20 && s < 23: // general position, vertices snapped onto box corners and sides (review D1)
+			bb := c16GenBox(r, 2)
+			var ps []orb.Point
+			if r.Intn(2) == 0 {
+				// a triangle through the box ending exactly on a corner: far vertex, corner, a vertex beside the box
+				cx, cy := []float64{bb.x0, bb.x1}[r.Intn(2)], []float64{bb.y0, bb.y1}[r.Intn(2)]
+				w, h := bb.x1-bb.x0, bb.y1-bb.y0
+				far := orb.Point{2*(bb.x0+bb.x1)/2 - cx + (r.Float64()-0.3)*w*1.2*sgn(bb.x0+bb.x1-2*cx), 2*(bb.y0+bb.y1)/2 - cy + (r.Float64()-0.7)*h*0.9*sgn(bb.y0+bb.y1-2*cy)}
+				side := orb.Point{far[0] + (r.Float64()-0.5)*w*0.5, cy - sgn(bb.y0+bb.y1-2*cy)*(0.1+r.Float64())*h}
+				ps = []orb.Point{far, {cx, cy}, side}
+			} else {
+				ps = c16SimpleRing(r, bb, 2)
+				if ps == nil {
+					continue
+				}
+				ps = append([]orb.Point(nil), ps...)
+				for n := 1 + r.Intn(3); n > 0; n-- {
+					i := r.Intn(len(ps))
+					p := ps[i]
+					nx := bb.x0
+					if math.Abs(p[0]-bb.x1) < math.Abs(p[0]-bb.x0) {
+						nx = bb.x1
+					}
+					ny := bb.y0
+					if math.Abs(p[1]-bb.y1) < math.Abs(p[1]-bb.y0) {
+						ny = bb.y1
+					}
+					switch r.Intn(4) {
+					case 0: // onto the nearest vertical side
+						ps[i] = orb.Point{nx, p[1]}
+					case 1: // onto the nearest horizontal side
+						ps[i] = orb.Point{p[0], ny}
+					default: // onto the nearest corner
+						ps[i] = orb.Point{nx, ny}
+					}
+				}
+			}
+			if c16Area2(ps) == 0 {
+				continue
+			}
+			ring := c16Close(c16Rotate(c16Wind(ps, o), r.Intn(len(ps))))
+			qq := spts(c16Samples(r, bb, 16))
+			switch r.Intn(6) {
+			case 0:
+				c.Case("poly", fmt.Sprintf("%d %s %s %s", o, bb, gs(orb.Polygon{ring}), qq))
+			case 1:
+				c.Case("geom", fmt.Sprintf("%d %s %s", o, bb, gs(ring)))
+			default:
+				c.Case("ring", fmt.Sprintf("%d %s %s %s", o, bb, spts(ring), qq))
+			}
+		case s == 23: // caller buffers (review D2): the rings are sub-slices of one buffer
+			ps := c16SimpleRing(r, b, mode)
+			if ps == nil {
+				continue
+			}
+			ps = c16Rotate(c16Wind(ps, o), r.Intn(len(ps)))
+			ring := c16Close(ps)
+			if r.Intn(2) == 0 {
+				ring = ring[:len(ring)-1] // not explicitly closed: smartclip closes it when an end is in the box
+			}
+			switch r.Intn(3) {
+			case 0:
+				c.Case("aring", fmt.Sprintf("%d %s %s", o, b, spts(ring)))
+			case 1:
+				pg := orb.Polygon{ring}
+				snap := 0
+				if mode != 2 {
+					snap = 1
+				}
+				for hN := r.Intn(3); hN > 0; hN-- {
+					if h := c16Hole(r, ps, nil, b, snap); h != nil {
+						hr := c16Close(c16Wind(h, -o))
+						if r.Intn(2) == 0 {
+							hr = hr[:len(hr)-1]
+						}
+						pg = append(pg, hr)
+					}
+				}
+				c.Case("apoly", fmt.Sprintf("%d %s %s", o, b, gs(pg)))
+			default:
+				mp := orb.MultiPolygon{{ring}}
+				w := b.x1 - b.x0
+				for n := r.Intn(3); n > 0; n-- {
+					sh := orb.Point{(2 + r.Float64()) * w * float64(1-2*r.Intn(2)), 0}
+					if mode != 2 {
+						sh[0] = math.Round(sh[0])
+					}
+					var rg orb.Ring
+					for _, p := range ring {
+						rg = append(rg, orb.Point{p[0] + sh[0], p[1]})
+					}
+					mp = append(mp, orb.Polygon{rg})
+				}
+				c.Case("ampoly", fmt.Sprintf("%d %s %s", o, b, gs(mp)))
+			}
+		case s == 24 || s == 25: // concentric members: island in a lake (review D3), outer ring swallowing the box, empty members
+			// a box large enough for the inner rings to fit in
+			b := c16Box{b.x0, b.y0, b.x0 + float64(4+r.Intn(7)), b.y0 + float64(4+r.Intn(7))}
+			if mode == 2 {
+				b.x1, b.y1 = b.x1+r.Float64(), b.y1+r.Float64()
+			}
+			qs := spts(c16Samples(r, b, 16))
+			w, h := b.x1-b.x0, b.y1-b.y0
+			ctr := orb.Point{b.x0 + w*(r.Float64()*1.6-0.3), b.y0 + h*(r.Float64()*1.6-0.3)}
+			unit := 0.5
+			if mode == 2 {
+				unit = 0.2 + r.Float64()*0.5
+			} else {
+				ctr = orb.Point{math.Round(ctr[0]*2) / 2, math.Round(ctr[1]*2) / 2}
+			}
+			var rad [4]float64
+			acc := 0.0
+			for i := 3; i >= 0; i-- {
+				acc += unit * float64(1+r.Intn(4))
+				rad[i] = acc
+			}
+			if r.Intn(2) == 0 {
+				// the island well inside the box, the lake around it inside or across the box edge, the outermost
+				// ring across it (review D3: hole of a closed member while another member is cut)
+				ctr = orb.Point{b.x0 + w*(0.3+0.4*r.Float64()), b.y0 + h*(0.3+0.4*r.Float64())}
+				if mode != 2 {
+					ctr = orb.Point{math.Round(ctr[0]*2) / 2, math.Round(ctr[1]*2) / 2}
+				}
+				d := math.Min(math.Min(ctr[0]-b.x0, b.x1-ctr[0]), math.Min(ctr[1]-b.y0, b.y1-ctr[1]))
+				q := func(x float64) float64 {
+					if mode != 2 {
+						return math.Max(0.5, math.Floor(x*2)/2)
+					}
+					return x
+				}
+				rad[3] = q(d * (0.1 + 0.15*r.Float64()))
+				rad[2] = rad[3] + q(d*(0.1+0.2*r.Float64()))
+				rad[1] = rad[2] + q(d*(0.1+0.6*r.Float64()))
+				rad[0] = rad[1] + q(0.5+r.Float64()*(w+h)/2)
+			}
+			if r.Intn(4) == 0 { // make the outermost ring swallow the box
+				rad[0] = math.Max(rad[0], math.Ceil(2*(w+h)+1))
+			}
+			if r.Intn(3) == 0 {
+				rad[3] = 0 // the island has no hole
+			}
+			mp := c16Island(ctr, rad, o, r.Intn(2) == 0)
+			if r.Intn(4) == 0 { // a single polygon with one hole (the swallow family)
+				c.Case("poly", fmt.Sprintf("%d %s %s %s", o, b, gs(c16Island(ctr, [4]float64{rad[0], rad[1], 0, 0}, o, false)[0]), qs))
+				continue
+			}
+			if r.Intn(3) == 0 { // empty members in between (`if len(p) == 0 { continue }`)
+				var m2 orb.MultiPolygon
+				for _, pg := range mp {
+					if r.Intn(2) == 0 {
+						m2 = append(m2, orb.Polygon{})
+					}
+					m2 = append(m2, pg)
+				}
+				mp = append(m2, orb.Polygon{})
+			}
+			c.Case("mpoly", fmt.Sprintf("%d %s %s %s", o, b, gs(mp), qs))
+			if r.Intn(8) == 0 {
+				c.Case("geom", fmt.Sprintf("%d %s %s", o, b, gs(mp)))
+			}
+		case s == 26: // outside the quantifier: orientations other than CW / CCW (model agreement only)
+			ps := c16SimpleRing(r, b, mode)
+			if ps == nil {
+				continue
+			}
+			ring := c16Close(c16Rotate(ps, r.Intn(len(ps))))
+			bad := []int{0, 2, -2}[r.Intn(3)]
+			switch r.Intn(4) {
+			case 0:
+				c.Case("poly", fmt.Sprintf("%d %s %s %s", bad, b, gs(orb.Polygon{ring}), qs))
+			case 1:
+				c.Case("geom", fmt.Sprintf("%d %s %s", bad, b, gs(ring)))
+			default:
+				c.Case("ring", fmt.Sprintf("%d %s %s %s", bad, b, spts(ring), qs))
+			}
 		case s < 7: // simple closed ring wound as o
 			ps := c16SimpleRing(r, b, mode)
 			if k%16 == 5 { // a small ring strictly inside the box, or beside it
@@ -621,6 +1090,24 @@ func genC16(c *Ctx) {
 			}
 		case s < 16: // polygon with 0..2 holes
 			ps := c16SimpleRing(r, b, mode)
+			if k%10 == 7 { // a small polygon strictly inside the box ("returned unchanged"), or beside it
+				w, h := b.x1-b.x0, b.y1-b.y0
+				cx, cy := b.x0+w*(0.35+0.3*r.Float64()), b.y0+h*(0.35+0.3*r.Float64())
+				if r.Intn(4) == 0 {
+					cx += w
+				}
+				ps = c16Star(r, cx, cy, 3+r.Intn(6), 0.2*math.Min(w, h), 0.3*math.Min(w, h), 0)
+				if ps != nil {
+					pg := orb.Polygon{c16Close(c16Rotate(c16Wind(ps, o), r.Intn(len(ps))))}
+					for hN := r.Intn(3); hN > 0; hN-- {
+						if hole := c16Star(r, cx+(float64(hN)-1.5)*0.08*math.Min(w, h), cy, 3+r.Intn(3), 0.01*math.Min(w, h), 0.035*math.Min(w, h), 0); hole != nil {
+							pg = append(pg, c16Close(c16Wind(hole, -o)))
+						}
+					}
+					c.Case("poly", fmt.Sprintf("%d %s %s %s", o, b, gs(pg), qs))
+					continue
+				}
+			}
 			if ps == nil {
 				continue
 			}
@@ -721,7 +1208,7 @@ func genC16(c *Ctx) {
 			}
 		default: // the generic entry point over every kind, incl. garbage rings, collections and typed nils
 			cm := []CoordMode{CoordSmallInt, CoordHalf, CoordModest}[mode]
-			g := genGeom(r, GenOpts{Mode: cm, MaxPts: 6, MaxDepth: 2, TopNil: true}, 0)
+			g := genGeom(r, GenOpts{Mode: cm, MaxPts: 6, MaxDepth: 2, TopNil: true, InnerNil: true}, 0)
 			if r.Intn(3) == 0 {
 				var coll orb.Collection
 				for n := 1 + r.Intn(3); n > 0; n-- {
@@ -737,7 +1224,36 @@ func genC16(c *Ctx) {
 			if mode != 2 {
 				bb = c16Box{b.x0 - 4, b.y0 - 4, b.x1 - 4, b.y1 - 4} // genGeom's pools are centred on the origin
 			}
-			c.Case("geom", fmt.Sprintf("%d %s %s", o, bb, gs(g)))
+			c.Case("geom", fmt.Sprintf("%d %s %s", o, bb, gsN(g)))
 		}
 	}
+}
+
+func sgn(x float64) float64 {
+	if x < 0 {
+		return -1
+	}
+	return 1
+}
+
+// c16Island: concentric axis-aligned squares of half-sizes rad[0] > rad[1] > rad[2] > rad[3] around ctr:
+// member B = square 0 with hole square 1, member A = square 2 (inside B's hole) with hole square 3
+// (rad[3] = 0: no hole; rad[2] = 0: no island).  Outer rings wound o, holes -o; islandFirst swaps the members.
+func c16Island(ctr orb.Point, rad [4]float64, o int, islandFirst bool) orb.MultiPolygon {
+	sq := func(s float64, w int) orb.Ring {
+		ps := []orb.Point{{ctr[0] - s, ctr[1] - s}, {ctr[0] + s, ctr[1] - s}, {ctr[0] + s, ctr[1] + s}, {ctr[0] - s, ctr[1] + s}}
+		return c16Close(c16Wind(ps, w))
+	}
+	bm := orb.Polygon{sq(rad[0], o), sq(rad[1], -o)}
+	if rad[2] == 0 {
+		return orb.MultiPolygon{bm}
+	}
+	am := orb.Polygon{sq(rad[2], o)}
+	if rad[3] != 0 {
+		am = append(am, sq(rad[3], -o))
+	}
+	if islandFirst {
+		return orb.MultiPolygon{am, bm}
+	}
+	return orb.MultiPolygon{bm, am}
 }
